@@ -124,7 +124,13 @@ func (g *Generator) cookClient(typeName string) {
 					}
 					if ftype.Params != nil {
 						for _, param := range ftype.Params.List {
+							if len(param.Names) == 0 {
+								logx.Fatalf("method %s: parameters must be named, the generated method reads them", methodName)
+							}
 							for _, name := range param.Names {
+								if name.Name == "_" {
+									logx.Fatalf("method %s: parameters must be named, the generated method reads them", methodName)
+								}
 								g.handleExpr(param.Type, name, f, methodName, httpMethod)
 								if _, ok := param.Type.(*ast.StarExpr); ok {
 									g.data.IsParamPtrMap[methodName][name.Name] = true
